@@ -218,6 +218,8 @@ def classify_diff(sa, sb) -> Tuple[str, str]:
     d = G.first_diff(sa, sb)
     path, x, y, cf = d
     what = f"first difference at {path}: {str(x)[:80]!r} -> {str(y)[:80]!r}"
+    if cf == "Constant.value" and isinstance(x, str) and isinstance(y, str):
+        return "prettify:string-literal:value-changed", what
     if cf in ("Constant.type_", "Constant.value"):
         if x == "FLOAT_CONSTANT" and y == "INTEGER_CONSTANT":
             return "prettify:float-literal:integral-rendered-as-integer", what
@@ -304,7 +306,9 @@ def check_script(script: str, reserved) -> List[Tuple[str, str]]:
                 key = "prettify:hierarchical-ruleset:rules-reordered"
             i = next((j for j, (u, v) in enumerate(zip(p, p2)) if u != v), min(len(p), len(p2)))
             what = f"prettify(prettify(s)) differs from prettify(s) at offset {i}: {p[i:i+60]!r} vs {p2[i:i+60]!r}"
-            if key == "prettify:not-idempotent" and [c for c in fcls if c != "prettify:float-literal:integral-rendered-as-integer"]:
+            if key == "prettify:not-idempotent" and any(k == "prettify:string-literal:value-changed" for k, _ in out):
+                pass            # consequence of the string literal already reported
+            elif key == "prettify:not-idempotent" and [c for c in fcls if c != "prettify:float-literal:integral-rendered-as-integer"]:
                 for c in fcls:
                     if c != "prettify:float-literal:integral-rendered-as-integer" and not any(k == c for k, _ in out):
                         out.append((c, what))
@@ -474,6 +478,24 @@ def directed_cases():
         "define operator g (x dataset, y number default 1.0) returns dataset is x * y end operator;\nDS_r := g(DS_1, 3.0);",
         'define datapoint ruleset d1 (variable Me_1) is r1: Me_1 > 2.0 errorcode "E" errorlevel 1.0 end datapoint ruleset;\nDS_r := check_datapoint(DS_1, d1 all);',
         "DS_r := DS_1[aggr Me_3 := sum(Me_1) group by Id_1];", "DS_r := DS_1[calc Me_3 := if Me_1 > 2.5 then null else Me_2];",
+        # comments: several per line, block + line, inside statements and definitions, before / after statements
+        "/* unit */ DS_r <- DS_1 * 2; // checked\n/* a */ /* b */ DS_x := DS_1; // c\n",
+        "DS_r := DS_1 /* mid */ + /* mid2 */ 1; // end\n// own line\n/* last */",
+        'define datapoint ruleset d1 (variable Me_1) is /* in sig */\n  r1: Me_1 > 0 errorcode "E  1" errorlevel "L\t2"; // after r1\n'
+        '  /* before r2 */ r2: Me_1 < 9 errorcode " lead" errorlevel "trail " /* x */ // y\nend datapoint ruleset; // after def\n'
+        "DS_r := check_datapoint(DS_1, d1 all);\n",
+        # string literals with runs of blanks, tabs, newlines, leading / trailing blanks: constants, errorcodes, errorlevels, defaults
+        'DS_r := DS_1[calc Me_3 := "line1\nline2" || "  " || " ( " || "tab\there"];',
+        'DS_r := DS_1[calc Me_3 := length("a   b"), Me_4 := if "a  b" = "a b" then 1 else 2];',
+        'DS_r := DS_1[calc Me_3 := instr("a (b) c", "(b)"), Me_4 := replace("a  b", "  ", " ")];',
+        'define hierarchical ruleset h1 (variable rule Id_2) is /* hc */ A = B + C errorcode "H  1" errorlevel "W  2"; // r1\n'
+        ' B >= C errorcode "x\ty" end hierarchical ruleset;\nDS_r := check_hierarchy(DS_1[keep Me_1], h1 rule Id_2 all);',
+        'DS_r := check(DS_1[keep Me_1] > 0 errorcode "chk  code" errorlevel "lvl  1" imbalance DS_1[keep Me_1] all);',
+        'define operator f1 (x dataset, s string default "a  b") returns dataset is x [calc Me_9 := s || "\tq  r"] end operator;\nDS_r := f1(DS_1, "u   v");',
+        'DS_r := DS_1[calc Me_3 := "x  y"][filter Me_3 = "x  y"];',
+        # pretty-mode line breaking must not reach into string literals
+        'DS_r := DS_1[calc Me_3 := "p and q"][filter Me_3 = "p and q" or Me_3 = "r or s"];',
+        'define operator f2 (x dataset) returns dataset is x [calc Me_9 := "(p)  q"] end operator;\nDS_r := f2(DS_1);',
     ]
     return [{"script": s_, "structs": structs, "data": data} for s_ in scripts]
 
